@@ -141,6 +141,16 @@ theorem inv_complete (h : Inv s) (hd : d < s.n) (hst : s.status d ≠ .waiting)
     rw [complete_status]
     simp only [hid, if_false]
     split <;> simp [hi.1, hi.2]
+  have hendmono : ∀ i, ended s i = true → ended (complete s d st order) i = true := by
+    intro i hi
+    by_cases hid : i = d
+    · rw [hid]; exact ended_of_executed hexd
+    · have hnw : s.status i ≠ .waiting := by
+        intro e; unfold ended at hi; rw [e] at hi; cases hi
+      have : s.blocked d i = false := h.no_blocker hnw d
+      unfold ended at hi ⊢
+      rw [complete_status]
+      simpa [hid, this] using hi
   have hchain : ∀ i j, i ≠ d → Chain s i j → Chain (complete s d st order) i j := by
     intro i j hi c
     refine c.remove_row (d0 := d) ?_ hfree hi
@@ -211,18 +221,18 @@ theorem inv_complete (h : Inv s) (hd : d < s.n) (hst : s.status d ≠ .waiting)
       simpa [hrd] using h4
   · intro i j hij hj hc
     by_cases hid : i = d
-    · left; rw [hid]; exact hexd
+    · left; rw [hid]; exact ended_of_executed hexd
     · rcases h.safe i j hij hj hc with he | hch
-      · left; exact hexmono i he
+      · left; exact hendmono i he
       · right; exact hchain i j hid hch
   · intro k o hk
     obtain ⟨ho, hrest⟩ := h.own k o hk
     refine ⟨ho, ?_⟩
     intro i rd hi hmem hio
     by_cases hid : i = d
-    · left; rw [hid]; exact hexd
+    · left; rw [hid]; exact ended_of_executed hexd
     · rcases hrest i rd hi hmem hio with he | hch | ⟨hrd, hr⟩
-      · left; exact hexmono i he
+      · left; exact hendmono i he
       · right; left; exact hchain i o hid hch
       · right; right
         refine ⟨hrd, ?_⟩
@@ -412,7 +422,7 @@ theorem LInv.F1 {s : State} {t : Nat} {pre : List KeyReq} {ds : List Nat} (h : L
   by_cases hil : i = lt
   · subst hil
     rcases H1 with a | a
-    · exact Or.inl a
+    · exact Or.inl (ended_of_executed a)
     · exact Or.inr (.direct a)
   · have hin : i < s.n := by have := h.n_eq; omega
     rcases h3 i rd hin hm hil with a | a | a | a
@@ -802,6 +812,8 @@ def header (s : State) (ks : List KeyReq) : State :=
 theorem header_LInv {s : State} (h : Inv s) (ks : List KeyReq) : LInv (header s ks) s.n [] [] := by
   have hexe : ∀ i, i ≠ s.n → executed (header s ks) i = executed s i := by
     intro i hi; simp [executed, header, hi]
+  have hende : ∀ i, i ≠ s.n → ended (header s ks) i = ended s i := by
+    intro i hi; simp [ended, header, hi]
   have hch : ∀ i j, Chain s i j → Chain (header s ks) i j :=
     fun i j c => Chain.mono (s := s) (s' := header s ks) (fun _ _ hb => hb) c
   refine ⟨rfl, by simp [header], ?_, ?_, ?_, ?_, ?_, ?_, ?_, List.nodup_nil, ?_, ?_⟩
@@ -840,7 +852,7 @@ theorem header_LInv {s : State} (h : Inv s) (ks : List KeyReq) : LInv (header s 
     have e2 : (header s ks).keys j = s.keys j := by simp [header]; intro e; omega
     rw [e1, e2] at hc
     rcases h.safe i j hij hj hc with a | a
-    · left; rw [hexe i (by omega)]; exact a
+    · left; rw [hende i (by omega)]; exact a
     · exact Or.inr (hch _ _ a)
   · intro i _ x _ y hy; cases hy
   · intro k o hk
@@ -853,7 +865,7 @@ theorem header_LInv {s : State} (h : Inv s) (ks : List KeyReq) : LInv (header s 
       have e1 : (header s ks).keys i = s.keys i := by simp [header, hit]
       rw [e1] at hm
       rcases h3 i rd hi' hm hio with a | a | a
-      · right; left; rw [hexe i hit]; exact a
+      · right; left; rw [hende i hit]; exact a
       · exact Or.inr (Or.inr (Or.inl (hch _ _ a)))
       · exact Or.inr (Or.inr (Or.inr a))
   · intro k hk i rd hi hm
@@ -922,6 +934,14 @@ theorem LInv.finish {s1 : State} {t : Nat} {ks : List KeyReq} {ds : List Nat}
       rw [this, executed_false_iff]
       rcases e_stt with a | a <;> rw [a.2] <;> simp
     · simp [executed, e_st i hi]
+  have hende : ∀ i, ended s2 i = ended s1 i := by
+    intro i
+    by_cases hi : i = t
+    · subst hi
+      unfold ended
+      rw [h.st_t]
+      rcases e_stt with a | a <;> rw [a.2]
+    · simp [ended, e_st i hi]
   have hch : ∀ i j, Chain s1 i j → Chain s2 i j :=
     fun i j c => Chain.mono (s := s1) (s' := s2) (fun _ _ hb => by rw [e_bl]; exact hb) c
   have hcnt : ∀ j, cnt s2 j = cnt s1 j := by intro j; unfold cnt; rw [e_n, e_bl]
@@ -956,7 +976,7 @@ theorem LInv.finish {s1 : State} {t : Nat} {ks : List KeyReq} {ds : List Nat}
     exact ⟨h1, by rw [e_n]; exact h2, by rw [hexe]; exact h3, by rw [e_rg]; exact h4⟩
   · intro i j hij hj hc
     rw [e_keys] at hc
-    rw [hexe]
+    rw [hende]
     by_cases hjt : j = t
     · subst hjt
       rw [conflictKeys_iff] at hc
@@ -975,7 +995,7 @@ theorem LInv.finish {s1 : State} {t : Nat} {ks : List KeyReq} {ds : List Nat}
     intro i rd hi hm hio
     rw [e_keys] at hm
     rw [e_n] at hi
-    rw [hexe, e_rd]
+    rw [hende, e_rd]
     rcases h3 i rd hi hm hio with a | a | a | a
     · exfalso
       obtain ⟨rfl, a2⟩ := a
@@ -1028,6 +1048,7 @@ theorem inv_register {s : State} {ks : List KeyReq} (h : Inv s) (hk : keysNodup 
 tasks are executed / waiting. -/
 theorem inv_of_status {s s' : State} (h : Inv s) (e1 : s'.n = s.n) (e2 : s'.keys = s.keys)
     (e3 : ∀ x, executed s' x = executed s x)
+    (e3e : ∀ x, ended s x = true → ended s' x = true)
     (e3' : ∀ x, s'.status x = .waiting ↔ s.status x = .waiting)
     (e4 : s'.deps = s.deps) (e5 : s'.blocked = s.blocked) (e6 : s'.readers = s.readers)
     (e7 : s'.reading = s.reading) (e8 : s'.nodes = s.nodes) : Inv s' := by
@@ -1047,18 +1068,18 @@ theorem inv_of_status {s s' : State} (h : Inv s) (e1 : s'.n = s.n) (e2 : s'.keys
     obtain ⟨h1, h2, h3, h4⟩ := h.rdr o r hr
     exact ⟨h1, by rw [e1]; exact h2, by rw [e3]; exact h3, by rw [e7]; exact h4⟩
   · intro i j hij hj hc
-    rw [e2] at hc; rw [e1] at hj; rw [e3]
+    rw [e2] at hc; rw [e1] at hj
     rcases h.safe i j hij hj hc with a | a
-    · exact Or.inl a
+    · exact Or.inl (e3e _ a)
     · exact Or.inr (hch _ _ a)
   · intro k o hk
     rw [e8] at hk
     obtain ⟨h1, h3⟩ := h.own k o hk
     refine ⟨by rw [e1]; exact h1, ?_⟩
     intro i rd hi hm hio
-    rw [e2] at hm; rw [e1] at hi; rw [e3, e6]
+    rw [e2] at hm; rw [e1] at hi; rw [e6]
     rcases h3 i rd hi hm hio with a | a | a
-    · exact Or.inl a
+    · exact Or.inl (e3e _ a)
     · exact Or.inr (Or.inl (hch _ _ a))
     · exact Or.inr (Or.inr a)
   · intro k hk i rd hi hm
@@ -1139,6 +1160,22 @@ structure LogInv (s : State) : Prop where
   l_skip : ∀ j, s.status j = .skipped → s.err.isSome = true
   l_err : s.err = firstErr s.log
   l_order : OrderedLog s.n s.keys s.log
+  /-- the coarse relation never uses the intermediate statuses of the finest relation -/
+  l_coarse : ∀ j, s.status j ≠ .dequeued ∧ ∀ r, s.status j ≠ .ending r
+
+theorem LogInv.executed_of_ended {s : State} (h : LogInv s) {i : Nat} (he : ended s i = true) :
+    executed s i = true := by
+  have hc := h.l_coarse i
+  rw [executed_iff]
+  unfold ended at he
+  cases hs : s.status i with
+  | waiting => rw [hs] at he; cases he
+  | queued => rw [hs] at he; cases he
+  | dequeued => exact absurd hs hc.1
+  | running => rw [hs] at he; cases he
+  | ending r => exact absurd hs (hc.2 r)
+  | done => exact Or.inl rfl
+  | skipped => exact Or.inr rfl
 
 structure Full (s : State) : Prop where
   inv : Inv s
@@ -1146,7 +1183,7 @@ structure Full (s : State) : Prop where
   lg : LogInv s
 
 theorem full_init (w : Nat) : Full (init w) := by
-  refine ⟨inv_init w, ⟨by simp [init], by simp [init], by simp [init]⟩, ⟨?_, ?_, ?_, ?_, ?_⟩⟩
+  refine ⟨inv_init w, ⟨by simp [init], by simp [init], by simp [init]⟩, ⟨?_, ?_, ?_, ?_, ?_, by simp [init]⟩⟩
   · simp [init]
   · simp [init]
   · simp [init]
@@ -1187,7 +1224,13 @@ theorem full_run {s : State} {ks : List KeyReq} (h : Full s) (hk : keysNodup ks 
   obtain ⟨f_n, f_log, f_err, f_w, _, f_st, f_keys, f_q⟩ := register_frame s ks
   have hsn : s.status s.n = .waiting := h.q.hi s.n (Nat.le_refl _)
   have hnq : s.n ∉ s.queue := fun hm => by have := (h.q.q_iff s.n).mp hm; omega
-  refine ⟨inv_register h.inv hk, ⟨?_, ?_, ?_⟩, ⟨?_, ?_, ?_, ?_, ?_⟩⟩
+  refine ⟨inv_register h.inv hk, ⟨?_, ?_, ?_⟩, ⟨?_, ?_, ?_, ?_, ?_, ?_⟩⟩
+  rotate_right
+  · intro j
+    by_cases hj : j = s.n
+    · subst hj
+      rcases f_q with ⟨a, _⟩ | ⟨a, _⟩ <;> rw [a] <;> simp
+    · rw [f_st j hj]; exact h.lg.l_coarse j
   · intro j
     rw [f_n]
     by_cases hj : j = s.n
@@ -1250,13 +1293,24 @@ theorem full_start {s : State} {j : Nat} (h : Full s) (hen : isEnabled s (.start
   rw [hq] at hnd
   rw [List.nodup_cons] at hnd
   have hst : ∀ x, (apply s (.start j)).status x = if x = j then .running else s.status x := fun _ => rfl
-  refine ⟨?_, ⟨?_, ?_, ?_⟩, ⟨?_, ?_, ?_, ?_, ?_⟩⟩
-  · refine inv_of_status (s' := apply s (.start j)) h.inv rfl rfl ?_ ?_ rfl rfl rfl rfl rfl
+  refine ⟨?_, ⟨?_, ?_, ?_⟩, ⟨?_, ?_, ?_, ?_, ?_, ?_⟩⟩
+  rotate_right
+  · intro x
+    rw [hst]
+    by_cases hx : x = j
+    · simp [hx]
+    · simp only [hx, if_false]; exact h.lg.l_coarse x
+  · refine inv_of_status (s' := apply s (.start j)) h.inv rfl rfl ?_ ?_ ?_ rfl rfl rfl rfl rfl
     · intro x
       simp only [executed, hst]
       by_cases hx : x = j
       · subst hx; simp [hjq.2]; decide
       · simp [hx]
+    · intro x hx
+      have hxj : x ≠ j := by
+        intro e; subst e; unfold ended at hx; rw [hjq.2] at hx; cases hx
+      unfold ended at hx ⊢
+      rw [hst]; simpa [hxj] using hx
     · intro x
       rw [hst]
       by_cases hx : x = j
@@ -1304,7 +1358,8 @@ theorem full_start {s : State} {j : Nat} (h : Full s) (hen : isEnabled s (.start
     · rw [← h.lg.l_err]; exact herr
     · intro i hi hc
       rcases h.inv.safe i j hi hjq.1 hc with a | a
-      · rw [executed_iff] at a
+      · have a := h.lg.executed_of_ended a
+        rw [executed_iff] at a
         rcases a with a | a
         · exact h.lg.l_fin i a
         · have := h.lg.l_skip i a
@@ -1317,7 +1372,8 @@ theorem full_frame {s s' : State} (h : Full s) (e1 : s'.n = s.n) (e2 : s'.keys =
     (e3 : s'.status = s.status) (e4 : s'.deps = s.deps) (e5 : s'.blocked = s.blocked)
     (e6 : s'.readers = s.readers) (e7 : s'.reading = s.reading) (e8 : s'.nodes = s.nodes) :
     Inv s' :=
-  inv_of_status h.inv e1 e2 (fun x => by simp [executed, e3]) (fun x => by rw [e3]) e4 e5 e6 e7 e8
+  inv_of_status h.inv e1 e2 (fun x => by simp [executed, e3]) (fun x hx => by simpa [ended, e3] using hx)
+    (fun x => by rw [e3]) e4 e5 e6 e7 e8
 
 theorem isSome_cas (e : Option Err) (x : Err) : (cas e x).isSome = true := by
   cases e <;> rfl
@@ -1329,7 +1385,7 @@ theorem cas_of_some {e : Option Err} (x : Err) (h : e.isSome = true) : cas e x =
 
 theorem full_stop {s : State} (h : Full s) : Full (apply s .stop) := by
   refine ⟨full_frame h rfl rfl rfl rfl rfl rfl rfl rfl, ⟨h.q.q_iff, h.q.q_nd, h.q.hi⟩,
-    ⟨?_, ?_, ?_, ?_, ?_⟩⟩
+    ⟨?_, ?_, ?_, ?_, ?_, h.lg.l_coarse⟩⟩
   · intro x
     show (Event.stop :: s.log).count (.start x) = _
     rw [List.count_cons, h.lg.l_cnt x]; simp; rfl
@@ -1347,7 +1403,7 @@ theorem full_stop {s : State} (h : Full s) : Full (apply s .stop) := by
 
 theorem full_wait {s : State} (h : Full s) : Full (apply s .wait) :=
   ⟨full_frame h rfl rfl rfl rfl rfl rfl rfl rfl, ⟨h.q.q_iff, h.q.q_nd, h.q.hi⟩,
-    ⟨h.lg.l_cnt, h.lg.l_fin, h.lg.l_skip, h.lg.l_err, h.lg.l_order⟩⟩
+    ⟨h.lg.l_cnt, h.lg.l_fin, h.lg.l_skip, h.lg.l_err, h.lg.l_order, h.lg.l_coarse⟩⟩
 
 theorem complete_status_other {s : State} {d : Nat} {st : Status} {order : List Nat} {x : Nat}
     (hblk : ∀ d j, s.blocked d j = true → d < j ∧ j < s.n ∧ executed s d = false ∧ s.status j = .waiting) (hx : x ≠ d) :
@@ -1430,7 +1486,9 @@ theorem loginv_complete {s : State} {d : Nat} {st : Status} {order : List Nat}
     (hfind : st = .done → ∃ f, Event.fin d f ∈ s.log)
     (hskip : ∀ x, x ≠ d → s.status x = .skipped → s.err.isSome = true)
     (hskipd : st = .skipped → s.err.isSome = true)
-    (herr : s.err = firstErr s.log) (hord : OrderedLog s.n s.keys s.log) :
+    (herr : s.err = firstErr s.log) (hord : OrderedLog s.n s.keys s.log)
+    (hco : ∀ j, s.status j ≠ .dequeued ∧ ∀ r, s.status j ≠ .ending r)
+    (hstc : st = .done ∨ st = .skipped) :
     LogInv (complete s d st order) := by
   have hother : ∀ x, x ≠ d → ∀ v : Status, v ≠ .waiting → v ≠ .queued →
       ((complete s d st order).status x = v ↔ s.status x = v) := by
@@ -1441,7 +1499,16 @@ theorem loginv_complete {s : State} {d : Nat} {st : Status} {order : List Nat}
       constructor <;> intro e
       · exact absurd e.symm hv2
       · exact absurd e.symm hv1
-  refine ⟨?_, ?_, ?_, herr, hord⟩
+  refine ⟨?_, ?_, ?_, herr, hord, ?_⟩
+  rotate_right
+  · intro x
+    by_cases hx : x = d
+    · subst hx
+      rw [complete_status]
+      rcases hstc with e | e <;> simp [e]
+    · rcases complete_status_other (st := st) (order := order) hinv.blk hx with a | a
+      · rw [a]; exact hco x
+      · rw [a.2]; simp
   · intro x
     show s.log.count (.start x) = _
     by_cases hx : x = d
@@ -1509,6 +1576,8 @@ theorem full_finish {s : State} {j : Nat} {fail : Bool} {order : List Nat} (h : 
         cases firstErr s.log <;> rfl
     · show OrderedLog s.n s.keys (Event.fin j fail :: s.log)
       exact h.lg.l_order.cons_other (by simp)
+    · exact h.lg.l_coarse
+    · exact Or.inl rfl
 
 theorem full_skip {s : State} {j : Nat} {order : List Nat} (h : Full s)
     (hen : isEnabled s (.skip j order) = true) : Full (apply s (.skip j order)) := by
@@ -1555,6 +1624,8 @@ theorem full_skip {s : State} {j : Nat} {order : List Nat} (h : Full s)
       rw [firstErr_cons_neutral (by simp)]; exact h.lg.l_err
     · show OrderedLog s.n s.keys (Event.skip j :: s.log)
       exact h.lg.l_order.cons_other (by simp)
+    · exact h.lg.l_coarse
+    · exact Or.inr rfl
 
 theorem full_step {s : State} {st : Step} (h : Full s) (hen : isEnabled s st = true) :
     Full (apply s st) := by
